@@ -135,3 +135,181 @@ Lemma gen_wiring_Nub__scalar :
   wsrc_Nub__scalar = Some (WCall (WGlobal "MeansScalar") [WAttr (WSelf "_cube") "means"; WAttr (WSelf
       "_cube") "unweighted_counts"] []).
 Proof. reflexivity. Qed.
+
+(* SecondOrderMeasures.means *)
+Lemma gen_wiring_SecondOrderMeasures_means :
+  wsrc_SecondOrderMeasures_means = Some (WCall (WGlobal "_Means") [WSelf "_dimensions"; WVar "self";
+      WSelf "_cube_measures"] []).
+Proof. reflexivity. Qed.
+
+(* SecondOrderMeasures.medians *)
+Lemma gen_wiring_SecondOrderMeasures_medians :
+  wsrc_SecondOrderMeasures_medians = Some (WCall (WGlobal "_Medians") [WSelf "_dimensions"; WVar
+      "self"; WSelf "_cube_measures"] []).
+Proof. reflexivity. Qed.
+
+(* SecondOrderMeasures.sums *)
+Lemma gen_wiring_SecondOrderMeasures_sums :
+  wsrc_SecondOrderMeasures_sums = Some (WCall (WGlobal "_Sums") [WSelf "_dimensions"; WVar "self";
+      WSelf "_cube_measures"] []).
+Proof. reflexivity. Qed.
+
+(* SecondOrderMeasures.stddev *)
+Lemma gen_wiring_SecondOrderMeasures_stddev :
+  wsrc_SecondOrderMeasures_stddev = Some (WCall (WGlobal "_StdDev") [WSelf "_dimensions"; WVar "self";
+      WSelf "_cube_measures"] []).
+Proof. reflexivity. Qed.
+
+(* SecondOrderMeasures.unweighted_counts *)
+Lemma gen_wiring_SecondOrderMeasures_unweighted_counts :
+  wsrc_SecondOrderMeasures_unweighted_counts = Some (WCall (WGlobal "_UnweightedCounts") [WSelf
+      "_dimensions"; WVar "self"; WSelf "_cube_measures"] []).
+Proof. reflexivity. Qed.
+
+(* SecondOrderMeasures.weighted_counts *)
+Lemma gen_wiring_SecondOrderMeasures_weighted_counts :
+  wsrc_SecondOrderMeasures_weighted_counts = Some (WCall (WGlobal "_WeightedCounts") [WSelf
+      "_dimensions"; WVar "self"; WSelf "_cube_measures"] []).
+Proof. reflexivity. Qed.
+
+(* BaseSecondOrderMeasure._unweighted_cube_counts *)
+Lemma gen_wiring_BaseSecondOrderMeasure__unweighted_cube_counts :
+  wsrc_BaseSecondOrderMeasure__unweighted_cube_counts = Some (WAttr (WSelf "_cube_measures")
+      "unweighted_cube_counts").
+Proof. reflexivity. Qed.
+
+(* BaseSecondOrderMeasure._weighted_cube_counts *)
+Lemma gen_wiring_BaseSecondOrderMeasure__weighted_cube_counts :
+  wsrc_BaseSecondOrderMeasure__weighted_cube_counts = Some (WAttr (WSelf "_cube_measures")
+      "weighted_cube_counts").
+Proof. reflexivity. Qed.
+
+(* MatrixCubeMeasures.cube_means *)
+Lemma gen_wiring_MatrixCubeMeasures_cube_means :
+  wsrc_MatrixCubeMeasures_cube_means = Some (WCall (WAttr (WGlobal "_BaseCubeMeans") "factory") [WSelf
+      "_cube"; WSelf "_dimensions"; WSelf "_slice_idx"] []).
+Proof. reflexivity. Qed.
+
+(* MatrixCubeMeasures.cube_medians *)
+Lemma gen_wiring_MatrixCubeMeasures_cube_medians :
+  wsrc_MatrixCubeMeasures_cube_medians = Some (WCall (WAttr (WGlobal "_BaseCubeMedians") "factory")
+      [WSelf "_cube"; WSelf "_dimensions"; WSelf "_slice_idx"] []).
+Proof. reflexivity. Qed.
+
+(* MatrixCubeMeasures.cube_sum *)
+Lemma gen_wiring_MatrixCubeMeasures_cube_sum :
+  wsrc_MatrixCubeMeasures_cube_sum = Some (WCall (WAttr (WGlobal "_BaseCubeSums") "factory") [WSelf
+      "_cube"; WSelf "_dimensions"; WSelf "_slice_idx"] []).
+Proof. reflexivity. Qed.
+
+(* MatrixCubeMeasures.cube_stddev *)
+Lemma gen_wiring_MatrixCubeMeasures_cube_stddev :
+  wsrc_MatrixCubeMeasures_cube_stddev = Some (WCall (WAttr (WGlobal "_BaseCubeStdDev") "factory")
+      [WSelf "_cube"; WSelf "_dimensions"; WSelf "_slice_idx"] []).
+Proof. reflexivity. Qed.
+
+(* MatrixCubeMeasures.unweighted_cube_counts *)
+Lemma gen_wiring_MatrixCubeMeasures_unweighted_cube_counts :
+  wsrc_MatrixCubeMeasures_unweighted_cube_counts = Some (WCall (WAttr (WGlobal "_BaseCubeCounts")
+      "factory") [WIf (WCmp "is not" (WAttr (WSelf "_cube") "unweighted_valid_counts") (WNone))
+      (WAttr (WSelf "_cube") "unweighted_valid_counts") (WAttr (WSelf "_cube") "unweighted_counts");
+      WIf (WCmp "is not" (WAttr (WSelf "_cube") "unweighted_valid_counts") (WNone)) (WTrue)
+      (WFalse); WSelf "_cube"; WSelf "_dimensions"; WSelf "_slice_idx"] []).
+Proof. reflexivity. Qed.
+
+(* MatrixCubeMeasures.weighted_cube_counts *)
+Lemma gen_wiring_MatrixCubeMeasures_weighted_cube_counts :
+  wsrc_MatrixCubeMeasures_weighted_cube_counts = Some (WCall (WAttr (WGlobal "_BaseCubeCounts")
+      "factory") [WIf (WCmp "is not" (WAttr (WSelf "_cube") "weighted_valid_counts") (WNone)) (WAttr
+      (WSelf "_cube") "weighted_valid_counts") (WAttr (WSelf "_cube") "counts"); WIf (WCmp "is not"
+      (WAttr (WSelf "_cube") "weighted_valid_counts") (WNone)) (WTrue) (WFalse); WSelf "_cube";
+      WSelf "_dimensions"; WSelf "_slice_idx"] []).
+Proof. reflexivity. Qed.
+
+(* StripeMeasures.means *)
+Lemma gen_wiring_StripeMeasures_means :
+  wsrc_StripeMeasures_means = Some (WCall (WGlobal "_Means") [WSelf "_rows_dimension"; WVar "self";
+      WSelf "_cube_measures"] []).
+Proof. reflexivity. Qed.
+
+(* StripeMeasures.medians *)
+Lemma gen_wiring_StripeMeasures_medians :
+  wsrc_StripeMeasures_medians = Some (WCall (WGlobal "_Medians") [WSelf "_rows_dimension"; WVar
+      "self"; WSelf "_cube_measures"] []).
+Proof. reflexivity. Qed.
+
+(* StripeMeasures.stddev *)
+Lemma gen_wiring_StripeMeasures_stddev :
+  wsrc_StripeMeasures_stddev = Some (WCall (WGlobal "_StdDev") [WSelf "_rows_dimension"; WVar "self";
+      WSelf "_cube_measures"] []).
+Proof. reflexivity. Qed.
+
+(* StripeMeasures.sums *)
+Lemma gen_wiring_StripeMeasures_sums :
+  wsrc_StripeMeasures_sums = Some (WCall (WGlobal "_Sums") [WSelf "_rows_dimension"; WVar "self";
+      WSelf "_cube_measures"] []).
+Proof. reflexivity. Qed.
+
+(* StripeMeasures.unweighted_counts *)
+Lemma gen_wiring_StripeMeasures_unweighted_counts :
+  wsrc_StripeMeasures_unweighted_counts = Some (WCall (WGlobal "_UnweightedCounts") [WSelf
+      "_rows_dimension"; WVar "self"; WSelf "_cube_measures"] []).
+Proof. reflexivity. Qed.
+
+(* StripeMeasures.weighted_counts *)
+Lemma gen_wiring_StripeMeasures_weighted_counts :
+  wsrc_StripeMeasures_weighted_counts = Some (WCall (WGlobal "_WeightedCounts") [WSelf
+      "_rows_dimension"; WVar "self"; WSelf "_cube_measures"] []).
+Proof. reflexivity. Qed.
+
+(* StripeBaseSecondOrderMeasure._unweighted_cube_counts *)
+Lemma gen_wiring_StripeBaseSecondOrderMeasure__unweighted_cube_counts :
+  wsrc_StripeBaseSecondOrderMeasure__unweighted_cube_counts = Some (WAttr (WSelf "_cube_measures")
+      "unweighted_cube_counts").
+Proof. reflexivity. Qed.
+
+(* StripeBaseSecondOrderMeasure._weighted_cube_counts *)
+Lemma gen_wiring_StripeBaseSecondOrderMeasure__weighted_cube_counts :
+  wsrc_StripeBaseSecondOrderMeasure__weighted_cube_counts = Some (WAttr (WSelf "_cube_measures")
+      "weighted_cube_counts").
+Proof. reflexivity. Qed.
+
+(* StripeCubeMeasures.cube_means *)
+Lemma gen_wiring_StripeCubeMeasures_cube_means :
+  wsrc_StripeCubeMeasures_cube_means = Some (WCall (WAttr (WGlobal "_BaseCubeMeans") "factory") [WSelf
+      "_cube"; WSelf "_rows_dimension"] []).
+Proof. reflexivity. Qed.
+
+(* StripeCubeMeasures.cube_medians *)
+Lemma gen_wiring_StripeCubeMeasures_cube_medians :
+  wsrc_StripeCubeMeasures_cube_medians = Some (WCall (WAttr (WGlobal "_BaseCubeMedians") "factory")
+      [WSelf "_cube"; WSelf "_rows_dimension"] []).
+Proof. reflexivity. Qed.
+
+(* StripeCubeMeasures.cube_stddev *)
+Lemma gen_wiring_StripeCubeMeasures_cube_stddev :
+  wsrc_StripeCubeMeasures_cube_stddev = Some (WCall (WAttr (WGlobal "_BaseCubeStdDev") "factory")
+      [WSelf "_cube"; WSelf "_rows_dimension"] []).
+Proof. reflexivity. Qed.
+
+(* StripeCubeMeasures.cube_sum *)
+Lemma gen_wiring_StripeCubeMeasures_cube_sum :
+  wsrc_StripeCubeMeasures_cube_sum = Some (WCall (WAttr (WGlobal "_BaseCubeSums") "factory") [WSelf
+      "_cube"; WSelf "_rows_dimension"] []).
+Proof. reflexivity. Qed.
+
+(* StripeCubeMeasures.unweighted_cube_counts *)
+Lemma gen_wiring_StripeCubeMeasures_unweighted_cube_counts :
+  wsrc_StripeCubeMeasures_unweighted_cube_counts = Some (WCall (WAttr (WGlobal "_BaseCubeCounts")
+      "factory") [WIf (WCmp "is not" (WAttr (WSelf "_cube") "unweighted_valid_counts") (WNone))
+      (WAttr (WSelf "_cube") "unweighted_valid_counts") (WAttr (WSelf "_cube") "unweighted_counts");
+      WSelf "_rows_dimension"; WSelf "_ca_as_0th"; WSelf "_slice_idx"] []).
+Proof. reflexivity. Qed.
+
+(* StripeCubeMeasures.weighted_cube_counts *)
+Lemma gen_wiring_StripeCubeMeasures_weighted_cube_counts :
+  wsrc_StripeCubeMeasures_weighted_cube_counts = Some (WCall (WAttr (WGlobal "_BaseCubeCounts")
+      "factory") [WIf (WCmp "is not" (WAttr (WSelf "_cube") "weighted_valid_counts") (WNone)) (WAttr
+      (WSelf "_cube") "weighted_valid_counts") (WAttr (WSelf "_cube") "counts"); WSelf
+      "_rows_dimension"; WSelf "_ca_as_0th"; WSelf "_slice_idx"] []).
+Proof. reflexivity. Qed.
